@@ -777,6 +777,26 @@ func (w *Writer) OpenStream(ref Reference, dict Dict, filters ...Filter) (io.Wri
 		streamDict[key] = inlined
 	}
 
+	// The filters named in the dictionary come first in the chain which ends
+	// up in the file, the filters argument is appended to them.  The rules
+	// for Crypt filters apply to the whole chain: first position only, and
+	// only the Identity filter can be written so far.
+	dictCrypt, numDictFilters, err := dictCryptFilter(streamDict)
+	if err != nil {
+		return nil, fmt.Errorf("Writer.OpenStream: %w", err)
+	}
+	if dictCrypt != nil {
+		if _, ok := dictCrypt.(FilterCryptIdentity); !ok {
+			return nil, fmt.Errorf("OpenStream: %T encoding is not yet supported", dictCrypt)
+		}
+	}
+	if leadingCrypt != nil && numDictFilters > 0 {
+		return nil, errors.New("Crypt filter must be the first filter, but the stream dictionary already has a /Filter")
+	}
+	if leadingCrypt == nil {
+		leadingCrypt = dictCrypt
+	}
+
 	// A caller-supplied /Length must be a value we can check against the data
 	// once it has been written.  A [Placeholder] is rejected along with every
 	// other type: the writer installs its own below, and one supplied here
@@ -805,13 +825,6 @@ func (w *Writer) OpenStream(ref Reference, dict Dict, filters ...Filter) (io.Wri
 	//     Writer.Put).  Per PDF spec §7.4.10 the explicit Crypt filter
 	//     overrides the default StmF.
 	skipDefaultEncrypt := w.refIsPlaintext[ref] || leadingCrypt != nil
-	if !skipDefaultEncrypt {
-		startsWithCrypt, err := filterChainStartsWithCrypt(w, streamDict["Filter"])
-		if err != nil {
-			return nil, err
-		}
-		skipDefaultEncrypt = startsWithCrypt
-	}
 	if w.w.enc != nil && !skipDefaultEncrypt {
 		enc, err := w.w.enc.EncryptStream(ref, streamBody)
 		if err != nil {
@@ -836,6 +849,44 @@ func (w *Writer) OpenStream(ref Reference, dict Dict, filters ...Filter) (io.Wri
 	w.inStream = true
 	opened = true
 	return streamBody, nil
+}
+
+// dictCryptFilter inspects the filter chain of a stream dictionary whose
+// /Filter and /DecodeParms entries are direct objects.  It returns the number
+// of filters and the Crypt filter at the first position, if there is one.  A
+// Crypt filter at any other position is an error (PDF spec §7.4.10).
+func dictCryptFilter(dict Dict) (CryptFilter, int, error) {
+	var names Array
+	switch f := dict["Filter"].(type) {
+	case Name:
+		names = Array{f}
+	case Array:
+		names = f
+	}
+	var first CryptFilter
+	for i, name := range names {
+		if name != Name("Crypt") {
+			continue
+		}
+		if i != 0 {
+			return nil, 0, errors.New("Crypt filter must be the first filter in /Filter")
+		}
+		var parms Dict
+		switch p := dict["DecodeParms"].(type) {
+		case Dict:
+			parms = p
+		case Array:
+			if len(p) > 0 {
+				parms, _ = p[0].(Dict)
+			}
+		}
+		cf, err := parseCrypt(parms)
+		if err != nil {
+			return nil, 0, err
+		}
+		first = cf
+	}
+	return first, len(names), nil
 }
 
 type streamWriter struct {
